@@ -1033,8 +1033,8 @@ def ftsum_cases(tier):
 #   reorganization_energy_consistent() is True (correlation function).
 MEAS_OPS = ["iadd", "add_to_data", "add_to_data2", "plus"]
 MEAS_CTX = {"cf": ["1/cm", "int"], "sd": ["int"]}
-# spectral density: measure_reorganization_energy() does not convert to the current units,
-# the measurement is taken in internal units only.
+# spectral density: before /repo 2fd2a08 measure_reorganization_energy() did not convert to the
+# current units (C05 decides that clause now); the histories here measure in internal units.
 
 
 def _sd_expected_measured(names, ta):
